@@ -9,7 +9,7 @@ RULE = ("(iv) random operation histories (<=30 steps over assign / equal assign 
         "earlier; non-trivial = history with >=1 phase operation and >=1 copy, or traced run with >=2 rounds; distinct by seed / case hash")
 ASSUMPTIONS = ["scoring-phase cache fill (inverse_covariance, log_determinant) on the input state is allowed (caches determined by the MRF)",
                "the class invariant is evaluated only in traced runs, where no two states with different labels share cluster cells"]
-SHARD_TIMEOUT = {"quick": 900, "thorough": 3400}
+SHARD_TIMEOUT = {"quick": 300, "thorough": 3400}
 MIX = {"single:small": 3, "single:repop": 3, "single:general": 1, "joint:joint": 1}
 PROPS = ("C13",)
 EVALS = {"n": 0}
